@@ -30,6 +30,7 @@ func main() {
 	r.Assume("Write: resource names of later messages are not part of the property; they are enumerated (same / different object / empty) only to show they never make anything else visible.")
 	r.Assume("Write zstd: write_offset counts compressed bytes from 0 (the property demands offsets starting at zero; the server does not implement resumable uploads). committed_size is compared with what the code defines: the digest size for identity, the number of compressed bytes up to finish_write for zstd.")
 	r.Assume("Write zstd: a compressed stream that is damaged only after a streaming decoder has already produced the complete matching content (truncated or wrong frame checksum, partial next frame header) is don't-care: stored data matches the digest either way.")
+	r.Assume("Write enumeration, stated prunings: (1) offsets/data options that coincide for the current running total are enumerated once; (2) at most one later message carries a deviating resource name (the handler never reads it); (3) sequences whose FIRST resource name is malformed are enumerated only to a shorter length (the handler returns before reading message 2); (4) the backend Put fault (before reading / after reading the upload) is combined with all sequences up to one message shorter than the maximum; (5) the zstd enumeration uses the repository's bounded pool (decoder reuse), the default unbounded pool is exercised in bs-write-cuts, bs-write-names, bs-read and one back-to-back mode. Data alphabet per message: empty | next byte of the correct (compressed) stream, or an excess byte 'Z' once it is exhausted | rest of the correct stream | rest of the stream of the object with its last byte flipped.")
 	r.Assume("Write: error codes are recorded, not demanded; the property only says the RPC fails.")
 	r.Assume("Read: offset k with 0 <= k < size must stream exactly content[k:] and return OK; k == size may return OK without data or an error; any other offset, a missing object and a malformed name must not deliver a single byte that is not a prefix of the demanded suffix. read_limit != 0 is not covered by the property: an error is accepted (the server answers UNIMPLEMENTED), an OK answer must carry exactly the limited range. Chunk sizes of the responses are not demanded.")
 	r.Assume("Read of a backend object whose content does not match its digest must not complete with OK; bytes streamed before the mismatch is detected are not judged.")
